@@ -24,18 +24,18 @@ RULE = ('case = a fresh application and a history of 4..30 operations over a 13-
 TRUSTED = ['section variable filt (as C01); modelled, not verified: Python dict insertion order (association lists), '
            'object identity of Route / hook-list objects (heap of route ids; one shared hook pair per pattern)',
            'admissible histories only: a prefix removal "P*" is applied only when no installed hook pattern properly '
-           'extends P, and no registered rule ends in "*" (see finding F20)']
-ASSUMPTIONS = ['no registered rule ends in "*"', 'prefix removal only when no hook lies under the removed prefix',
+           'extends P']
+ASSUMPTIONS = ['prefix removal only when no hook lies under the removed prefix',
                'as C01: no rex selector, distinct wildcard names, ASCII method names']
 
 RULES = ['/a', '/a/b', '/a/b/c', '/a/<x>', '/a/<x>/c', '/ab', '/abc', '/a/<v:int>', '/p/<y:path>/e', '/p/q', '/<z>',
-         '/a/b/<w>', '/']
+         '/a/b/<w>', '/', '/p/*']        # '/p/*' is a LITERAL rule; remove('/p/*') is the prefix removal of 'p/'
 ALT = {'/a/<x>': '/a/<x2>', '/a/<x>/c': '/a/:k/c', '/<z>': '/{zz}'}        # same pattern, other names
 HOOKS = ['/a', '/a/b', '/a/<x>', '/p', '/a/b/c/d', '/ab', '/']
 PREFIXES = ['/a/*', '/a*', '/a/b*', '/*', '/p/*', '/ab*', '/a/b/*', '/zz*']
 NAMES = ['n1', 'n2', 'n3']
 PATHS = ['/a', '/a/b', '/a/b/c', '/a/q', '/a/q/c', '/a/12', '/ab', '/abc', '/abd', '/p/q', '/p/x/y/e', '/p', '/zz', '/',
-         '/a/b/c/d', '/a/b/zz', '/a//c', '/a/b/', '/a/\r/c']
+         '/a/b/c/d', '/a/b/zz', '/a//c', '/a/b/', '/a/\r/c', '/p/*']
 
 
 def _pat(rule):
@@ -93,6 +93,9 @@ def corpus():
     cs.append(_with_probes([dict(op='add_hook', rule='/a', h=50), dict(op='add_hook', rule='/a', h=51, partial=True),
                             A('/a/b', 1), dict(op='add_hook', rule='/a', h=52), dict(op='add_hook', rule='/', h=53),
                             dict(op='remove_hook', rule='/a'), dict(op='remove_hook', rule='/a/*')], full=True))
+    # F20 witness: a route whose rule ends in '*' removed by name is removed exactly; by rule it is the prefix removal
+    cs.append(_with_probes([A('/p/q', 1), A('/p/*', 2, name='n1'), A('/p/<y:path>/e', 3), dict(op='remove_name', name='n1'),
+                            A('/p/*', 4, name='n2'), dict(op='remove', rule='/p/*'), A('/p/q', 5)], full=True))
     # wildcard siblings, filter conflict, shared pattern with other names, method removal
     cs.append(_with_probes([A('/a/<x>', 1), A('/a/<v:int>', 2), A('/a/<x2>', 3, ('POST',)), A('/a/b', 4),
                             dict(op='remove_method', rule='/a/<x>', methods=['GET']), dict(op='remove', rule='/a/<x2>'),
@@ -282,8 +285,6 @@ def oracle(case, obs):
             P = router.to_pattern(c['rule'])[:-1]
             if any(h.startswith(P) and h != P for h in router.hooks):
                 return None            # inadmissible from here on: outside the property
-        if c['op'] == 'add' and c['rule'].endswith('*'):
-            return None
         res = a.run(c)
         if c['op'] == 'add_hook' and res == 0:
             hook_rule.setdefault(router.to_pattern(c['rule']), c['rule'])
@@ -359,11 +360,12 @@ def shrink(case):
         yield dict(case, cmds=cmds[:a_] + cmds[b_:])
 
 
-def _star_rule(case, what, m):
-    return any(c['op'] == 'add' and c['rule'].endswith('*') for c in case['cmds'])
+def _star_rule_removed_by_name(case, what, m):
+    return (any(c['op'] == 'add' and c['rule'].endswith('*') for c in case['cmds'])
+            and any(c['op'] == 'remove_name' for c in case['cmds']))
 
 
-PREDICATES = {'registered_rule_ends_in_star': _star_rule}
+PREDICATES = {'star_rule_removed_by_name': _star_rule_removed_by_name}
 
 MANIFEST = dict(
     text=('Proof (Coq): see coq/props/C11.v for the exact theorems and which are _partial. The model (coq/model/Router.v: '
